@@ -1,0 +1,35 @@
+"""
+Instrumentation used only by external verification machinery.
+
+Everything in this module is a no-op unless the environment
+variable CELL_TYPE_MAPPER_VERIF is set to '1' and
+CELL_TYPE_MAPPER_VERIF_TRACE points to an existing directory,
+in which case emit() appends one JSON line per call to
+<dir>/<pid>.jsonl
+"""
+import json
+import os
+
+
+def enabled():
+    if os.environ.get('CELL_TYPE_MAPPER_VERIF', '') != '1':
+        return False
+    trace_dir = os.environ.get('CELL_TYPE_MAPPER_VERIF_TRACE', '')
+    if len(trace_dir) == 0:
+        return False
+    return os.path.isdir(trace_dir)
+
+
+def emit(kind, **payload):
+    if not enabled():
+        return
+    trace_dir = os.environ['CELL_TYPE_MAPPER_VERIF_TRACE']
+    record = {'kind': kind}
+    for k in payload:
+        val = payload[k]
+        if hasattr(val, 'tolist'):
+            val = val.tolist()
+        record[k] = val
+    pth = os.path.join(trace_dir, f'{os.getpid()}.jsonl')
+    with open(pth, 'a') as dst:
+        dst.write(json.dumps(record, default=str) + '\n')
